@@ -372,6 +372,29 @@ CLAIMS["C17"]["text"] += (" Partition assignment is also the first operation on 
 CLAIMS["C18"]["text"] += " Index maps carry other negative markers than -1."
 CLAIMS["C20"]["text"] += " Rotation vectors of any length up to four turns: orthonormal result, and whole turns do not matter."
 
+# round 5 of the seeded changes (DESIGN.md 6.3)
+CLAIMS["C01"]["text"] += (" Per sample also: one block type relabelled unknown (files with types the library does not know are files it "
+                          "accepts), and skin partitions that declare triangles but store no face list.")
+CLAIMS["C02"]["text"] += (" Before anything is saved, a copy of the model (the unsaved twin) answers the battery; for saves that neither sort "
+                          "nor prune the saved model must answer like it (clause SavedModelAnswersLikeItsUnsavedTwin). A third option mode "
+                          "(optimize on, sortBlocks off); a variant with vertices deleted and a node added.")
+CLAIMS["C02"]["note"] += (" A second by-design effect is a listed known finding: after an edit of an Oblivion shape the tangent-space extra data "
+                          "block is stale until the next save rewrites it.")
+CLAIMS["C03"]["text"] += " Animation files (no node, first block a NiControllerSequence) built through the API are inputs too."
+CLAIMS["C07"]["text"] += (" StringTable.tla models the header string table as a state machine of its own (transcription of AddOrFindStringId / "
+                          "FillStringRefs / UpdateHeaderStrings; statements: indices inside the table and designating the text, strings once, "
+                          "none unused, true maximum length, table only grows with unknown blocks); StringTableMC checks it on every small "
+                          "table x indices x op sequence, the cases are replayed on a real NiHeader and compared exactly. Export information "
+                          "of 253..700 characters is among the edits.")
+CLAIMS["C08"]["text"] += " Models built through the API are written by each build and read by both (clause WriterLoadsItsOwnFile)."
+CLAIMS["C09"]["text"] += (" Also: one partition per triangle with body parts of their own (a deletion that empties several at once; clauses "
+                          "BodyPartsFollowTheirTriangles, DismemberListAligned), and a shape of 66 248 triangles in FO4 / FO76.")
+CLAIMS["C10"]["text"] += " Also: a reassignment saved without a rebuild, and one cleaned up (RemoveEmptyPartitions) before the rebuild."
+CLAIMS["C12"]["text"] += " Further features: two-sided shapes; SE sources with weights in fixed vertex slots and none in the skin data block."
+CLAIMS["C13"]["text"] += (" Inexact unit-vector components must come back within half a storage step; a set triangle list may hold a degenerate "
+                          "triangle.")
+CLAIMS["C14"]["text"] += " A block referenced twice below the shape is a further source; sub-graphs are compared as unfolded trees."
+
 def main():
     props = [json.loads(l) for l in open(os.path.join(ROOT, "properties.jsonl"))]
     commits = subprocess.run(["git", "-C", "/repo", "log", "--format=%H %s", "32497ec..HEAD"], stdout=subprocess.PIPE).stdout.decode().splitlines()
